@@ -150,16 +150,10 @@ def main():
                                   "deepcopy_methods": len(table["roots"]), "not_good": static_bad,
                                   "exceptions_no_longer_in_table": sorted(set(exc) - set(static_bad))}
 
-    # 3. Lean
-    lean_obligations_scoped(c, THEOREMS, facts_ok)
-
     # 4. harness
     hb, err = build_c18_harness()
     c.oblige("harness builds against /repo working tree", hb is not None, err)
-    if hb is None or table is None:
-        c.finish("lake build Cog.Props.C18 && #print axioms", "n/a")
-
-    if c.replay:
+    if c.replay and hb is not None and table is not None:
         if c.replay.startswith("witness:"):
             req = "c18 witness=" + c.replay[len("witness:"):]
         else:
@@ -170,11 +164,17 @@ def main():
         fails = [r for r in d.get("rows", []) if len(r) > 2 and r[2].startswith("FAIL")]
         sys.exit(1 if fails or "error" in d else 0)
 
+    # 3. Lean
+    lean_obligations_scoped(c, THEOREMS, facts_ok)
+    if hb is None or table is None:
+        c.finish("lake build Cog.Props.C18 && #print axioms", "n/a")
+
     def classify(r):
         m = re.match(r"FAIL (shared|omitted) (\S+)", r[2])
         return m.group(0) if m else re.sub(r"[0-9]+", "N", r[2])[:120]
 
     all_fail_labels = {}
+    tie_examples = []
 
     def consume(stream, rows):
         cov_row = None
@@ -200,7 +200,15 @@ def main():
             m = re.search(r"stores=(\d+)", r[1])
             return int(m.group(1)) if m else 0
         by_class = {}
-        for r in sorted(fails, key=size):
+        def weak(r):  # a shared store without an observed change of the original is the weaker replay
+            return 0 if ("changed the original" in r[2] or "copy differs" in r[2] or "unexplained" in r[2]) else 1
+        # an observation that contradicts the extracted table is a broken tie, not (by itself) an input on
+        # which the property fails: it becomes a failed obligation; the table-free observations of the same
+        # case (unexplained sharing / difference / change of the original) are what yields concrete inputs
+        ties = [r for r in fails if r[2].startswith("FAIL unexplained tie:")]
+        tie_examples.extend("%s: %s" % (r[0], r[2][len("FAIL unexplained "):]) for r in ties[:3])
+        fails = [r for r in fails if not r[2].startswith("FAIL unexplained tie:")]
+        for r in sorted(fails, key=lambda r: (weak(r), size(r))):
             by_class.setdefault(classify(r), []).append(r)
         reported = 0
         for cls, rs in by_class.items():
@@ -237,6 +245,7 @@ def main():
         labels = [T + "." + f["field"] for T in table["copy_order"] for f in table["copy"][T]]
         unexercised = [l for l in labels if cov["non_empty"].get(l, 0) == 0]
         c.oblige("every field of the copy table was exercised with a non-empty value (%d fields)" % len(labels), not unexercised, unexercised)
+        c.oblige("no observation of the real DeepCopy methods contradicts the extracted mode of a field", not tie_examples, tie_examples[:6])
         dyn_bad = dict(all_fail_labels)
         c.oblige("per-field verdicts observed on the real DeepCopy methods equal the extracted table (shared/omitted fields: %d)" % len(static_bad),
                  dyn_bad == static_bad, {"extracted": static_bad, "observed": dyn_bad})
